@@ -234,7 +234,8 @@ def run(res, b, tier, seed):
         oracle_failures=len(fails),
         semantic_models=dict(SEMB, disagreements=len(semdis),
                              rule="the Lean semantic models of the Batch target on the single-file programs of the scalar fragment: Sem/Src32 (meaning of the AST, "
-                                  "32-bit) vs the 32-bit reference interpreter, Sem/Cmd (program-counter machine over the emitted lines) vs lib/cmdsim.py on the "
+                                  "32-bit) vs the 32-bit reference interpreter, Sem/Cmd (program-counter machine over the emitted lines), Sem/CmdTree (block tree rebuilt from the lines) "
+                                  "and Sem/CmdLines (lrun: the line-level semantics of batch_script_lines_preserve_scalar_semantics) vs lib/cmdsim.py on the "
                                   "rendered script, and Sem/Src32 vs Sem/Cmd (an instance of C05S.batch_preserves_straight_line_semantics_partial where the program is "
                                   "straight-line)"),
     ))
